@@ -20,7 +20,7 @@ pub const HISTORIES: &[&str] = &[
     "seeded_random_mix",
     "pieces_built_from_empty_by_insert_then_concatenated",
     "pieces_built_from_singletons_then_concatenated",
-    "sliding_window_push_back_pop_front",
+    "sliding_window_and_deque_patterns",
     "build_then_random_remove_and_reinsert",
     "chunks_built_on_fresh_threads_then_concatenated",
     "built_on_a_worker_thread_then_edited_on_this_one",
@@ -520,15 +520,29 @@ pub fn run_history(history: usize, n: usize, mode: usize, stride: usize, seed: u
             }
         }
         12 => {
-            // sliding window: push back, and once the window is full pop the front
-            let w = (n / 4).max(8);
+            // sliding window / deque patterns (by seed): 0 push back + pop front, 1 push front + pop
+            // back, 2 alternate the two, 3 push back + pop front with a pop-back / push-back churn
+            // at the tail in between (anything that ties a priority to "the newest node" or to
+            // the end of the sequence shows here)
+            let variant = seed % 4;
+            let w = if (seed / 4) % 2 == 0 { (n / 4).max(8) } else { 300.min(n.max(8)) };
             for i in 0..n {
-                { last_pos = t.size(); if log_ops { oplog.push((0, last_pos as u32, i as u32)); } ins(&mut t, last_pos, i as u32, &mut f); }
+                let front = variant == 1 || (variant == 2 && i % 2 == 1);
+                { last_pos = if front { 0 } else { t.size() }; if log_ops { oplog.push((0, last_pos as u32, i as u32)); } ins(&mut t, last_pos, i as u32, &mut f); }
                 inserted += 1;
-                if t.size() > w {
-                    let removed = t.remove_at(0);
+                if variant == 3 && i % 3 == 2 && t.size() > 1 {
+                    let at = t.size() - 1;
+                    let removed = t.remove_at(at);
                     if log_ops {
-                        oplog.push((1, 0, removed.key));
+                        oplog.push((1, at as u32, removed.key));
+                    }
+                    { last_pos = t.size(); if log_ops { oplog.push((0, last_pos as u32, removed.key)); } ins(&mut t, last_pos, removed.key, &mut f); }
+                }
+                if t.size() > w {
+                    let at = if front { t.size() - 1 } else { 0 };
+                    let removed = t.remove_at(at);
+                    if log_ops {
+                        oplog.push((1, at as u32, removed.key));
                     }
                     inserted -= 1;
                 }
